@@ -119,8 +119,8 @@ theorem C15_forced (w : World) (id : Nat) (h : w.forced = some id) (d : RDir) : 
 theorem C15_precedence (w : World) (h : w.forced = none) (d : RDir) :
     (∀ s, walk w d = some s → resolve w d = s) ∧
     (walk w d = none → w.noEditorconfig = true → resolve w d = .default) ∧
-    (walk w d = none → w.noEditorconfig = false → ∀ id, w.editorconfig (norm d) = some id → resolve w d = .editorconfig id) ∧
-    (walk w d = none → w.editorconfig (norm d) = none → resolve w d = .default) := by
+    (walk w d = none → w.noEditorconfig = false → ∀ id, w.editorconfig d = some id → resolve w d = .editorconfig id) ∧
+    (walk w d = none → w.editorconfig d = none → resolve w d = .default) := by
   refine ⟨?_, ?_, ?_, ?_⟩
   · intro s hw; simp [resolve, h, hw]
   · intro hw hn; simp [resolve, h, hw, hn]
